@@ -1,7 +1,8 @@
 #!/usr/bin/env python3
 """Writes /verif/MANIFEST.json from the table below (maintenance helper; run by hand after adding a check)."""
 import json
-HOOK_COMMITS = ["7c8ef5d", "00db8be", "c5ee400", "dd5a18b"]
+HOOK_COMMITS = ["7c8ef5d", "00db8be", "c5ee400", "dd5a18b", "c6ca934"]
+E2_NOTE = ("Sequential histories through the public API; the state space is closed by cycling payload values with period 8 and by BUFFER/MAX_STREAMS in {small}; where no fixpoint is reached the depth is reported in the evidence. Trusted: rustc, std, crossbeam-channel, the reference models, the seqx engine; the canonical state relies on the VerifState hook reporting every field that influences behaviour.")
 E1_NOTE = ("Sequentially consistent interleavings at the granularity of the hooked operations (every protocol atomic, every plain shared "
            "access listed in DESIGN.md §1); Ordering arguments, weak-memory effects, torn plain accesses and spurious weak-CAS failures are not modelled. "
            "Threads, operations per thread and the deviation bound are finite and reported in the evidence. Trusted: rustc, std, crossbeam-channel, "
@@ -13,6 +14,7 @@ checks = {
  "C04": ("mcx", "E1: every schedule of producers against *driven* (park/unpark) streams for the 11 channel kinds x entry points x MAX_STREAMS x streams created; oracle: no accepted event pending when all producers returned and all streams are parked", "§4 C04", "stateless deviation-bounded DFS over thread schedules + quiescence oracle"),
  "C07": ("mcx", "E1: every schedule of a requester (cancel_all_streams, or gracefully_end_stream of one id on a paused tokio runtime) against 1-2 driven streams and a concurrent producer, for the 11 channel kinds; oracle at quiescence: no targeted stream is left parked, nothing alien/duplicated is yielded, stream accounting and id reuse are exact, untargeted streams still receive an event sent afterwards", "§4 C07", "stateless deviation-bounded DFS over thread schedules + quiescence oracle"),
  "C09": ("mcx", "E1: every schedule of 1-2 publishers (send / send_with) on the real mmap-log channel against a subscription made at an arbitrary point (new-only / old+new split / old+new joined) and a concurrently consuming joined listener, with 0-2 events of prior history; oracle after a sequential drain: one total order containing every accepted event once and extending each publisher's order; joined listeners agree; old ++ new of a split equals it, old ends by itself, the split point respects real time; new-only is a gapless suffix containing everything sent after the subscription returned; every reference still reads the value it was yielded with, one address per event", "§4 C09", "stateless deviation-bounded DFS over thread schedules + total-order / partition oracle"),
+ "C10": ("seqx", "E2: breadth-first search over every history of create-listener / send / poll / drop-listener (with or without leftovers) / cancel_all on the five real non-log Multi channels, MAX_STREAMS 1, 2 (to a fixpoint of canonical states: internal counters and lists + reference model) and 4 (to depth 11); every transition is compared with a reference model of listener lifetimes (poll yields exactly the next event sent during the listener's life or nothing; end-of-stream iff cancelled and drained), running_streams_count() == live listeners and pending count after every step, ids stay within MAX_STREAMS and never belong to two listeners, all ids reusable after every history", "§4 C10", "explicit-state BFS over operation histories of the real object, deduplicated on internal bookkeeping + model, against a reference model"),
  "C13": ("mcx", "E1: every schedule of 2-4 threads x 1-3 alloc_ref / alloc_with / dealloc_id / dealloc_ref operations on both pool allocators (POOL 2/4, slots pre-owned by the threads so that frees race allocations); oracle: ownership table (no slot handed out while owned, owner re-reads what it wrote), permissive interval rule for failed allocations, capacity restored afterwards, id<->reference bijection", "§4 C13", "stateless deviation-bounded DFS over thread schedules + ownership-table oracle"),
  "C14": ("mcx", "E1: every schedule of 2-4 threads cloning / dropping / dereferencing OgreArc handles to one pooled instrumented value, for every constructor (new_with_clones, new_with+clone, increment_references+raw_copy, OgreUnique::into_ogre_arc), both allocators, 0-2 handles kept by the harness; oracle: every deref reads the value, destructor count 0 while a handle lives and exactly 1 afterwards, references_count() at rest, slot returned to the pool", "§4 C14", "stateless deviation-bounded DFS over thread schedules + instrumented-payload oracle"),
  "C19": ("mcx", "E1: every schedule of 2-3 recorder threads x 1-3 inc() with one probing reader on AtomicIncrementalAverage64; oracle: final count exact, final average = mean, every (count, average) reading explained by some set of measurements consistent with real time (brute force over subsets)", "§4 C19", "stateless deviation-bounded DFS over thread schedules + subset-explanation oracle"),
@@ -32,7 +34,9 @@ m = {
    "add_only": True,
  },
  "engines": [
-   {"name": "mcx", "path": "/verif/engine/src/mcx.rs", "serves_properties": sorted(k for k, v in checks.items() if v[0] == "mcx"),
+   {"name": "seqx", "path": "/verif/engine/src/seqx.rs", "serves_properties": sorted(k for k, v in checks.items() if "seqx" in v[0]),
+    "kind_free_text": "E2: explicit-state breadth-first search over operation histories of the real objects (fresh object + replay per state), deduplicated on the objects' internal bookkeeping (VerifState hook) plus the reference model; every transition compared with the model"},
+   {"name": "mcx", "path": "/verif/engine/src/mcx.rs", "serves_properties": sorted(k for k, v in checks.items() if "mcx" in v[0]),
     "kind_free_text": "E1: controlled scheduler (baton-passing OS threads driven by the hooks of the `verif` feature) + stateless deviation-bounded depth-first exploration of schedules of the real code; 16 worker processes"},
  ],
  "checks": [],
@@ -50,7 +54,7 @@ for pid in ALL:
           "replay_cmd_template": f"./check {pid} --replay {{path}}",
           "engine": eng,
           "level_claimed": {"category": "model_checking", "text": text, "design_ref": ref},
-          "level_note": E1_NOTE,
+          "level_note": (E2_NOTE if eng == "seqx" else E1_NOTE + (" " + E2_NOTE if "seqx" in eng else "")),
           "technique": tech,
         })
     else:
